@@ -1223,3 +1223,821 @@ Qed.
 
 Theorem Inv2_reachable n progs sched : Inv2 (run_schedule (init_config n progs) sched).
 Proof. apply Inv12_run; [apply Inv_init|apply Inv2_init]. Qed.
+
+(* ================================================================== *)
+(* Part B. Programs of Load / LoadOrStore / LoadAndDelete only (sync2.Set's
+   Has / Add / Remove). For every instance j and key k, in EVERY reachable
+   configuration:
+     #(LoadOrStore(j,k) that returned loaded = false)
+   - #(LoadAndDelete(j,k) that returned loaded = true)
+   + (effects of calls in flight that are decided but not yet reported)
+   = 1 if k is in the abstract map, else 0                    [conservation]
+   The deciding steps: the successful Tlos_cas, the dirty insert at LOS_read2 /
+   LOS_amend, the successful Delete_cas on an entry of the read map, and - for
+   an entry found only in the dirty map - the LAD_read2 step that removes it
+   from dirty (from then on the entry is private to the remover, so its
+   delete.cas can only report (v, true)). Proof: one more pass over the labels
+   ([sf_cons]: what a step does to the abstract contents, per key), then the
+   invariant [Inv3] on configurations with the history. *)
+
+(* presence of key k in the map the Map stands for *)
+Definition Aof (s : mstate) (k : Z) : Z := match abs_lookup s k with Some _ => 1 | None => 0 end.
+
+Lemma abs_same_fields s s' k :
+  ents s' = ents s -> read_m s' = read_m s -> amended s' = amended s -> dirty s' = dirty s ->
+  abs_lookup s' k = abs_lookup s k.
+Proof. unfold abs_lookup, reach, dirty_lookup, e_load, get_ent. intros -> -> -> ->. reflexivity. Qed.
+
+Lemma reach_reach_any s k e : reach s k = Some e -> reach_any s k e.
+Proof.
+  unfold reach, reach_any. destruct (read_m s !! k); [intros [= ->]; auto|].
+  destruct (amended s); [auto|discriminate].
+Qed.
+
+Lemma e_load_set_ent s e p e0 :
+  e_load (set_ent s e p) e0 = if decide (e0 = e) then match p with PVal v => Some v | _ => None end else e_load s e0.
+Proof. unfold e_load. rewrite get_ent_set_ent. destruct (decide (e0 = e)); reflexivity. Qed.
+
+(* writing entry e changes at most the key under which e is reachable *)
+Lemma abs_set_ent s e p k :
+  abs_lookup (set_ent s e p) k =
+  if decide (reach s k = Some e) then match p with PVal v => Some v | _ => None end else abs_lookup s k.
+Proof.
+  unfold abs_lookup. change (reach (set_ent s e p) k) with (reach s k).
+  destruct (reach s k) as [e0|]; [|rewrite decide_False by discriminate; reflexivity].
+  rewrite e_load_set_ent. destruct (decide (e0 = e)) as [->|N].
+  - rewrite decide_True by reflexivity. reflexivity.
+  - rewrite decide_False by congruence. reflexivity.
+Qed.
+
+Lemma abs_set_ent_other s e p k k0 :
+  WF_core s -> reach_any s k0 e -> k <> k0 -> abs_lookup (set_ent s e p) k = abs_lookup s k.
+Proof.
+  intros Hc Hr N. rewrite abs_set_ent. rewrite decide_False; [reflexivity|].
+  intros H. apply N. eapply (wf_inj s Hc); [apply reach_reach_any; exact H|exact Hr].
+Qed.
+
+Lemma abs_set_ent_unreachable s e p k : unreachable s e -> abs_lookup (set_ent s e p) k = abs_lookup s k.
+Proof.
+  intros Hu. rewrite abs_set_ent. rewrite decide_False; [reflexivity|].
+  intros H. apply (Hu k). apply reach_reach_any. exact H.
+Qed.
+
+Lemma abs_misses s m k : abs_lookup (st_with_misses s m) k = abs_lookup s k.
+Proof. apply abs_same_fields; reflexivity. Qed.
+
+Lemma Aof_misses s m k : Aof (st_with_misses s m) k = Aof s k.
+Proof. unfold Aof. rewrite abs_misses. reflexivity. Qed.
+
+(* promotion does not change the contents *)
+Lemma abs_promote s d k :
+  WF_core s -> WF_ad s -> dirty s = Some d ->
+  abs_lookup (MState (ents s) (next_e s) d false None 0) k = abs_lookup s k.
+Proof.
+  intros Hc Ha Hd. unfold abs_lookup, reach, dirty_lookup. cbn. rewrite Hd.
+  assert (Ham : amended s = true).
+  { destruct (amended s) eqn:E; [reflexivity|]. pose proof (wf_unamended s Ha E). congruence. }
+  rewrite Ham. destruct (read_m s !! k) as [e|] eqn:Hk.
+  - rewrite (wf_cover s Ha d k e Hd Hk). destruct (is_exp s e) eqn:He; [|reflexivity].
+    unfold e_load. apply is_exp_get in He. change (get_ent s e) with (default PNil (ents s !! e)) in He.
+    unfold get_ent. rewrite He. reflexivity.
+  - destruct (d !! k); reflexivity.
+Qed.
+
+(* m.dirty[key] = newEntry(v) when read is already amended *)
+Lemma abs_insert_new s d key v k :
+  WF_core s -> dirty s = Some d -> read_m s !! key = None -> amended s = true ->
+  abs_lookup (MState (<[next_e s := PVal v]> (ents s)) (S (next_e s)) (read_m s) true (Some (<[key := next_e s]> d)) (misses s)) k =
+  if decide (k = key) then Some v else abs_lookup s k.
+Proof.
+  intros Hc Hd Hk Ham. unfold abs_lookup, reach, dirty_lookup, e_load, get_ent. cbn. rewrite Hd, Ham.
+  destruct (decide (k = key)) as [->|N].
+  - rewrite Hk, lookup_insert. cbn. rewrite lookup_insert. reflexivity.
+  - rewrite lookup_insert_ne by congruence.
+    assert (X : forall e, reach_any s k e -> <[next_e s:=PVal v]> (ents s) !! e = ents s !! e).
+    { intros e He. apply (wf_bound s Hc) in He. rewrite lookup_insert_ne by lia. reflexivity. }
+    destruct (read_m s !! k) as [e|] eqn:Hrk.
+    + rewrite X; [reflexivity|left; exact Hrk].
+    + destruct (d !! k) as [e|] eqn:Hdk; [|reflexivity].
+      rewrite X; [reflexivity|right; unfold dirty_lookup; rewrite Hd; exact Hdk].
+Qed.
+
+(* the amend step: m.read := (read.m, true); m.dirty[key] = newEntry(v) *)
+Lemma abs_amend s d key v k :
+  WF_core s -> dirty s = Some d -> read_m s !! key = None -> amended s = false ->
+  (forall k' e, d !! k' = Some e -> read_m s !! k' = Some e) ->
+  abs_lookup (MState (<[next_e s := PVal v]> (ents s)) (S (next_e s)) (read_m s) true (Some (<[key := next_e s]> d)) (misses s)) k =
+  if decide (k = key) then Some v else abs_lookup s k.
+Proof.
+  intros Hc Hd Hk Ham Hsub. unfold abs_lookup, reach, dirty_lookup, e_load, get_ent. cbn. rewrite Ham.
+  destruct (decide (k = key)) as [->|N].
+  - rewrite Hk, lookup_insert. cbn. rewrite lookup_insert. reflexivity.
+  - rewrite lookup_insert_ne by congruence.
+    destruct (read_m s !! k) as [e|] eqn:Hrk.
+    + assert (e < next_e s) by (eapply (wf_bound s Hc); left; exact Hrk). rewrite lookup_insert_ne by lia. reflexivity.
+    + destruct (d !! k) as [e|] eqn:Hdk; [|reflexivity]. apply Hsub in Hdk. congruence.
+Qed.
+
+Lemma abs_unexpunge s d key e k :
+  WF_core s -> dirty s = Some d -> read_m s !! key = Some e -> is_exp s e = true ->
+  abs_lookup (MState (<[e := PNil]> (ents s)) (next_e s) (read_m s) (amended s) (Some (<[key := e]> d)) (misses s)) k =
+  abs_lookup s k.
+Proof.
+  intros Hc Hd Hk He. unfold abs_lookup, reach, dirty_lookup. cbn. rewrite Hd.
+  assert (X : forall e0, e_load (MState (<[e := PNil]> (ents s)) (next_e s) (read_m s) (amended s) (Some (<[key := e]> d)) (misses s)) e0 = e_load s e0).
+  { intros e0. unfold e_load, get_ent. cbn. destruct (decide (e0 = e)) as [->|N].
+    - rewrite lookup_insert. cbn. apply is_exp_get in He. unfold get_ent in He. rewrite He. reflexivity.
+    - rewrite lookup_insert_ne by congruence. reflexivity. }
+  destruct (read_m s !! k) as [e0|] eqn:Hrk; [apply X|].
+  destruct (amended s); [|reflexivity].
+  assert (k <> key) by congruence. rewrite lookup_insert_ne by congruence.
+  destruct (d !! k); [apply X|reflexivity].
+Qed.
+
+Lemma abs_dirty_delete s key k :
+  read_m s !! key = None ->
+  abs_lookup (dirty_delete s key) k = if decide (k = key) then None else abs_lookup s k.
+Proof.
+  intros Hk. unfold dirty_delete. destruct (dirty s) as [d|] eqn:Hd.
+  - unfold abs_lookup, reach, dirty_lookup. cbn. rewrite Hd. destruct (decide (k = key)) as [->|N].
+    + rewrite Hk, lookup_delete. destruct (amended s); reflexivity.
+    + rewrite lookup_delete_ne by congruence. reflexivity.
+  - destruct (decide (k = key)) as [->|N]; [|reflexivity].
+    unfold abs_lookup, reach, dirty_lookup. rewrite Hk, Hd. destruct (amended s); reflexivity.
+Qed.
+
+(* while read is not amended the dirty map is not part of the contents *)
+Lemma abs_unamended s s' k :
+  ents s' = ents s -> read_m s' = read_m s -> amended s' = amended s -> amended s = false ->
+  abs_lookup s' k = abs_lookup s k.
+Proof.
+  unfold abs_lookup, reach, e_load, get_ent. intros -> -> -> ->. reflexivity.
+Qed.
+
+(* expunging a nil entry *)
+Lemma abs_expunge s e k : is_exp s e = false -> (forall v, get_ent s e <> PVal v) ->
+  abs_lookup (set_ent s e PExpunged) k = abs_lookup s k.
+Proof.
+  intros He Hv. rewrite abs_set_ent. destruct (decide (reach s k = Some e)) as [H|]; [|reflexivity].
+  unfold abs_lookup. rewrite H. unfold e_load. destruct (get_ent s e) eqn:E; try reflexivity. exfalso. eapply Hv; eauto.
+Qed.
+
+Local Open Scope Z_scope.
+
+(* the calls of the fragment: Has / Add / Remove of sync2.Set *)
+Definition frag (c : call) : Prop :=
+  match c with CLoad _ _ | CLoadAndDelete _ _ => True | CLoadOrStore _ _ _ p => p = PNone | _ => False end.
+
+(* the effect a call in flight has already had on its key but not yet reported:
+   +1 = LoadOrStore stored, -1 = LoadAndDelete removed the entry from the dirty map *)
+Definition pendf (f : frame) : Z :=
+  match f_call f with
+  | CLoadOrStore _ _ _ _ =>
+      match f_pc f with LOS_unlock | Miss_store => if (f_los f).2 then 0 else 1 | _ => 0 end
+  | CLoadAndDelete _ _ => if is_priv f then match f_e f with Some _ => -1 | None => 0 end else 0
+  | _ => 0
+  end.
+
+(* what a result reports: +1 = LoadOrStore stored (loaded = false), -1 = LoadAndDelete deleted *)
+Definition dH (c : call) (r : res) : Z :=
+  match c, r with
+  | CLoadOrStore _ _ _ _, RLos _ false => 1
+  | CLoadAndDelete _ _, ROpt (Some _) => -1
+  | _, _ => 0
+  end.
+
+Definition out_delta (f : frame) (o : outcome) : Z :=
+  match o with Continue f' => pendf f' | Return r => dH (f_call f) r | Callback _ _ _ => 0 end.
+
+Definition cons_post (s s' : mstate) (f : frame) (o : outcome) : Prop :=
+  (forall k, k <> key_of (f_call f) -> abs_lookup s' k = abs_lookup s k) /\
+  Aof s' (key_of (f_call f)) - Aof s (key_of (f_call f)) = out_delta f o - pendf f.
+
+Lemma cons_same s f o : out_delta f o = pendf f -> cons_post s s f o.
+Proof. intros H. split; [reflexivity|]. lia. Qed.
+
+Lemma cons_abs_same s s' f o :
+  (forall k, abs_lookup s' k = abs_lookup s k) -> out_delta f o = pendf f -> cons_post s s' f o.
+Proof. intros Ha H. split; [intros; apply Ha|]. unfold Aof. rewrite Ha. lia. Qed.
+
+Lemma pendf_after_miss i f i' f' :
+  after_miss i f = (i', f') -> pendf f' = pendf (set_pc f Miss_store) /\ i_st i' = st_with_misses (i_st i) (misses (i_st i) + 1).
+Proof.
+  unfold after_miss. intros H. case_match; simplify_eq; (split; [|reflexivity]); [|reflexivity].
+  unfold pendf, is_priv. cbn. destruct (f_call f); reflexivity.
+Qed.
+
+(* ---- Load ---- *)
+Lemma cons_Load t i f ch i' o j k :
+  f_call f = CLoad j k -> frame_ok f -> frame_pc_ok f -> WF_core (i_st i) -> (in_cs f = true -> WFL (i_st i) f) ->
+  ref_inv (i_st i) f -> step_frame t i f ch = Some (Ok (i', o)) -> cons_post (i_st i) (i_st i') f o.
+Proof.
+  intros Hcall [He Hst Hdel Hpost] Hpk Hc Hw [Hre Hrp] H. unfold frame_pc_ok in Hpk. rewrite Hcall in Hpk.
+  unfold step_frame in H. unfold WFL, in_cs in Hw. unfold cs_class in Hw. unfold ref_prom in Hrp.
+  assert (P0 : forall f1, f_call f1 = f_call f -> pendf f1 = 0) by (intros f1 E; unfold pendf; rewrite E, Hcall; reflexivity).
+  destruct (f_pc f) eqn:Hpc; try discriminate Hpk; rewrite ?Hcall in H; cbn in H, Hw, Hrp.
+  - (* Load_read1 *) repeat case_match; simplify_eq; apply cons_same; cbn; rewrite ?Hcall, ?P0; reflexivity.
+  - (* Load_lock *) repeat case_match; simplify_eq; apply cons_same; cbn; rewrite ?Hcall, ?P0; reflexivity.
+  - (* Load_read2 *)
+    repeat case_match; simplify_eq; try (apply cons_same; cbn; rewrite ?Hcall, ?P0; reflexivity).
+    match goal with E : after_miss _ _ = _ |- _ => apply pendf_after_miss in E as [E1 E2] end.
+    rewrite E2. apply cons_abs_same; [intros; apply abs_misses|]. cbn. rewrite E1, !P0 by reflexivity. reflexivity.
+  - (* Load_unlock *) repeat case_match; simplify_eq; apply cons_same; cbn; rewrite ?Hcall, ?P0; reflexivity.
+  - (* E_load *) repeat case_match; simplify_eq; apply cons_same; cbn; rewrite ?Hcall, ?P0; reflexivity.
+  - (* Miss_store *)
+    destruct (Hw eq_refl) as [_ Hwa]. destruct (dirty (i_st i)) as [d|] eqn:Hd; [|congruence]. simplify_eq. cbn.
+    apply cons_abs_same; [intros; apply abs_promote; auto|]. cbn. rewrite !P0 by reflexivity. reflexivity.
+Qed.
+
+Lemma reach_read s k e : read_m s !! k = Some e -> reach s k = Some e.
+Proof. unfold reach. intros ->. reflexivity. Qed.
+
+Lemma Aof_some s k v : abs_lookup s k = Some v -> Aof s k = 1.
+Proof. unfold Aof. intros ->. reflexivity. Qed.
+Lemma Aof_none s k : abs_lookup s k = None -> Aof s k = 0.
+Proof. unfold Aof. intros ->. reflexivity. Qed.
+
+(* ---- LoadAndDelete ---- *)
+Lemma cons_LAD t i f ch i' o j k :
+  f_call f = CLoadAndDelete j k -> frame_ok f -> frame_pc_ok f -> WF_core (i_st i) -> (in_cs f = true -> WFL (i_st i) f) ->
+  WF2 (i_st i) -> ref_inv (i_st i) f -> step_frame t i f ch = Some (Ok (i', o)) -> cons_post (i_st i) (i_st i') f o.
+Proof.
+  intros Hcall [He Hst Hdel Hpost] Hpk Hc Hw H2 [Hre Hrp] H. unfold frame_pc_ok in Hpk. rewrite Hcall in Hpk.
+  unfold step_frame in H. unfold WFL, in_cs in Hw. unfold cs_class in Hw. unfold ref_prom in Hrp. unfold ref_e in Hre.
+  unfold cons_post. rewrite Hcall in Hre |- *. cbn [key_of] in *.
+  assert (PF : forall f1, f_call f1 = f_call f ->
+            pendf f1 = if is_priv f1 then match f_e f1 with Some _ => -1 | None => 0 end else 0)
+    by (intros f1 E; unfold pendf; rewrite E, Hcall; reflexivity).
+  assert (IP : forall f1, f_call f1 = f_call f -> is_priv f1 = lad_pc (f_pc f1) && bool_decide (f_rd_m f1 !! k = None))
+    by (intros f1 E; unfold is_priv; rewrite E, Hcall; cbn; rewrite andb_true_r; reflexivity).
+  destruct (f_pc f) eqn:Hpc; try discriminate Hpk; rewrite ?Hcall in H; cbn in H, Hw, Hrp, Hre, He.
+  - (* LAD_read1 *)
+    repeat case_match; simplify_eq; (split; [reflexivity|]); cbn; rewrite ?Hcall, ?PF, ?IP by reflexivity; cbn; rewrite ?Hpc; cbn.
+    + try (rewrite bool_decide_eq_false_2 by congruence); lia.
+    + lia.
+    + lia.
+  - (* LAD_lock *)
+    repeat case_match; simplify_eq; (split; [reflexivity|]); cbn; rewrite ?Hcall, ?PF, ?IP by reflexivity; cbn; rewrite ?Hpc; cbn; lia.
+  - (* LAD_read2 *)
+    destruct (Hw eq_refl) as [_ Hwa].
+    destruct (read_m (i_st i) !! k) as [e0|] eqn:Hk.
+    { simplify_eq. split; [reflexivity|]. cbn. rewrite !PF, !IP by reflexivity. cbn. rewrite Hpc, Hk. cbn.
+      try (rewrite bool_decide_eq_false_2 by congruence); lia. }
+    destruct (amended (i_st i)) eqn:Ham.
+    2:{ simplify_eq. split; [reflexivity|]. cbn. rewrite !PF, !IP by reflexivity. cbn. rewrite Hpc. cbn. destruct (bool_decide _); lia. }
+    destruct (after_miss _ _) as [i2 f2] eqn:Eam. simplify_eq.
+    apply pendf_after_miss in Eam as [E1 E2]. cbn in E2. rewrite E2. cbn [out_delta]. rewrite E1.
+    rewrite !PF, !IP by reflexivity. cbn. rewrite Hpc, Hk. cbn.
+    split.
+    + intros k0 N. rewrite abs_misses, abs_dirty_delete by exact Hk. rewrite decide_False by exact N. reflexivity.
+    + rewrite Aof_misses. rewrite (Aof_none (dirty_delete _ _)); [|rewrite abs_dirty_delete by exact Hk; rewrite decide_True by reflexivity; reflexivity].
+      destruct (dirty_lookup (i_st i) k) as [e|] eqn:Hdk.
+      * destruct (H2 k e Hdk Hk) as [v Hv].
+        rewrite (Aof_some _ _ v); [lia|]. unfold abs_lookup, reach. rewrite Hk, Ham, Hdk. unfold e_load. rewrite Hv. reflexivity.
+      * rewrite Aof_none; [lia|]. unfold abs_lookup, reach. rewrite Hk, Ham, Hdk. reflexivity.
+  - (* LAD_unlock *)
+    destruct (f_e f) as [e|] eqn:Hfe; simplify_eq; (split; [reflexivity|]); cbn; rewrite ?Hcall, ?PF, ?IP by reflexivity; cbn;
+      rewrite ?Hpc, ?Hfe; cbn.
+    + lia.
+    + destruct (bool_decide _); lia.
+  - (* Delete_load *)
+    destruct (f_e f) as [e|] eqn:Hfe; [|discriminate]. specialize (Hre e eq_refl).
+    destruct (ent i e) eqn:Hent; simplify_eq; (split; [reflexivity|]); cbn; rewrite ?Hcall, ?PF, ?IP by reflexivity; cbn; rewrite ?Hpc, ?Hfe; cbn.
+    + destruct (f_rd_m f !! k); [try (rewrite bool_decide_eq_false_2 by congruence); lia|].
+      destruct Hre as ([v Hv] & _). unfold ent in Hent. congruence.
+    + destruct (f_rd_m f !! k); [try (rewrite bool_decide_eq_false_2 by congruence); lia|].
+      destruct Hre as ([v Hv] & _). unfold ent in Hent. congruence.
+    + lia.
+  - (* Delete_cas *)
+    destruct (f_e f) as [e|] eqn:Hfe; [|discriminate]. specialize (Hre e eq_refl).
+    destruct (cas_ok i e f) eqn:Hcas; simplify_eq.
+    2:{ split; [reflexivity|]. cbn. rewrite !PF, !IP by reflexivity. cbn. rewrite Hpc, Hfe. cbn. lia. }
+    destruct (Hdel eq_refl) as [v Hv]. rewrite Hv in *. cbn [out_delta dH]. rewrite Hcall. cbn [dH].
+    rewrite PF, IP by reflexivity. rewrite Hpc, Hfe. cbn [lad_pc andb].
+    assert (Hent : ent i e = PVal v).
+    { unfold cas_ok in Hcas. rewrite Hv in Hcas. apply andb_true_iff in Hcas as [Hcas _]. apply bool_decide_eq_true in Hcas. exact Hcas. }
+    destruct (f_rd_m f !! k) eqn:Hrd.
+    + rewrite bool_decide_eq_false_2 by congruence.
+      assert (Hk : read_m (i_st i) !! k = Some e).
+      { apply pod_live; [exact Hre|]. apply is_exp_of_ent. congruence. }
+      split.
+      * intros k0 N. cbn. eapply abs_set_ent_other; eauto. left. exact Hk.
+      * cbn. rewrite (Aof_none (set_ent _ _ _)); [|rewrite abs_set_ent, decide_True by (apply reach_read; exact Hk); reflexivity].
+        rewrite (Aof_some _ _ v); [lia|]. unfold abs_lookup. rewrite (reach_read _ _ _ Hk). unfold e_load. unfold ent in Hent. rewrite Hent. reflexivity.
+    + rewrite bool_decide_eq_true_2 by reflexivity. destruct Hre as (_ & Hu & _). cbn.
+      split; [intros; apply abs_set_ent_unreachable; exact Hu|].
+      unfold Aof. rewrite abs_set_ent_unreachable by exact Hu. lia.
+  - (* Miss_store *)
+    destruct (Hw eq_refl) as [_ Hwa]. destruct (dirty (i_st i)) as [d|] eqn:Hd; [|congruence]. simplify_eq. cbn.
+    split; [intros; apply abs_promote; auto|]. unfold Aof. rewrite abs_promote by auto.
+    rewrite !PF, !IP by reflexivity. cbn. rewrite Hpc. cbn. lia.
+Qed.
+
+(* ---- LoadOrStore ---- *)
+Section LOS.
+Variables (t : nat) (i : inst) (f : frame) (ch : Z) (j : nat) (k v : Z).
+Hypothesis Hcall : f_call f = CLoadOrStore j k v PNone.
+Hypothesis Hok : frame_ok f.
+Hypothesis Hc : WF_core (i_st i).
+Hypothesis Hw : in_cs f = true -> WFL (i_st i) f.
+Hypothesis H2 : WF2 (i_st i).
+Hypothesis Hr : ref_inv (i_st i) f.
+
+Lemma los_pendf f1 : f_call f1 = f_call f ->
+  pendf f1 = match f_pc f1 with LOS_unlock | Miss_store => if (f_los f1).2 then 0 else 1 | _ => 0 end.
+Proof. intros E. unfold pendf. rewrite E, Hcall. reflexivity. Qed.
+
+Lemma los_return_eq f1 a l : f_call f1 = f_call f -> los_return f1 a l = Return (RLos a l).
+Proof. intros E. unfold los_return. rewrite E, Hcall. reflexivity. Qed.
+
+Lemma los_pendf_dirty_next f1 : f_call f1 = f_call f -> pendf (dirty_next f1) = 0.
+Proof.
+  intros E. unfold dirty_next. destruct (unvisited _ _); rewrite los_pendf by exact E; cbn; [rewrite E, Hcall|]; reflexivity.
+Qed.
+
+(* tryLoadOrStore is done with (a, loaded); [d] = 1 if it stored *)
+Lemma cons_tlos_done s' a (l ok : bool) i1 i' o (d : Z) :
+  i_st i1 = s' -> f_pc f <> LOS_unlock -> f_pc f <> Miss_store ->
+  (ok = false -> f_mode f = MFast) -> d = (if l then 0 else if ok then 1 else 0) ->
+  (forall k0, k0 <> k -> abs_lookup s' k0 = abs_lookup (i_st i) k0) ->
+  Aof s' k - Aof (i_st i) k = d ->
+  tlos_done i1 f a l ok = (i', o) ->
+  cons_post (i_st i) (i_st i') f o.
+Proof.
+  intros Hs Hp1 Hp2 Hokm Hd Habs HA H. unfold tlos_done in H. unfold cons_post. rewrite Hcall. cbn [key_of].
+  assert (P0 : pendf f = 0). { rewrite los_pendf by reflexivity. destruct (f_pc f); try reflexivity; congruence. }
+  rewrite P0. destruct (f_mode f) eqn:Hm.
+  - destruct ok; simplify_eq.
+    + rewrite los_return_eq by reflexivity. cbn. rewrite Hcall. split; [exact Habs|]. destruct l; cbn; lia.
+    + cbn. rewrite los_pendf by reflexivity. cbn. split; [exact Habs|]. destruct l; lia.
+  - simplify_eq. cbn. rewrite los_pendf by reflexivity. cbn. split; [exact Habs|].
+    destruct ok; [destruct l; lia|]. specialize (Hokm eq_refl). congruence.
+  - destruct (after_miss i1 (set_los f a l)) as [i2 f2] eqn:Eam. simplify_eq.
+    apply pendf_after_miss in Eam as [E1 E2]. rewrite E2. cbn [out_delta]. rewrite E1, los_pendf by reflexivity. cbn.
+    split; [intros k0 N; rewrite abs_misses; auto|]. rewrite Aof_misses.
+    destruct ok; [destruct l; lia|]. specialize (Hokm eq_refl). congruence.
+Qed.
+
+Lemma cons_tlos_load i' o :
+  (f_pc f = Tlos_load1 \/ f_pc f = Tlos_load2) ->
+  match f_e f with
+  | None => Some (Panic NilDeref)
+  | Some e => match ent i e with
+              | PExpunged => let '(i', o) := tlos_done i f 0 false false in Some (Ok (i', o))
+              | PVal v => let '(i', o) := tlos_done i f v true true in Some (Ok (i', o))
+              | PNil => Some (Ok (i, Continue (set_pc f Tlos_cas)))
+              end
+  end = Some (Ok (i', o)) -> cons_post (i_st i) (i_st i') f o.
+Proof.
+  intros Hpc H. destruct Hr as [Hre _]. unfold ref_e in Hre.
+  assert (Hp1 : f_pc f <> LOS_unlock) by (destruct Hpc as [-> | ->]; discriminate).
+  assert (Hp2 : f_pc f <> Miss_store) by (destruct Hpc as [-> | ->]; discriminate).
+  destruct (f_e f) as [e|] eqn:Hfe; [|discriminate].
+  assert (Hre' : match f_mode f with
+                 | MFast => pub_or_dead (i_st i) k e
+                 | MLockedRead => read_m (i_st i) !! k = Some e /\ is_exp (i_st i) e = false
+                 | MLockedDirty => read_m (i_st i) !! k = None /\ dirty_lookup (i_st i) k = Some e
+                 end).
+  { rewrite Hcall in Hre. cbn in Hre. destruct Hpc as [Hpc|Hpc]; rewrite Hpc in Hre; apply Hre; reflexivity. }
+  destruct (ent i e) eqn:Hent.
+  - simplify_eq. apply cons_same. cbn. rewrite !los_pendf by reflexivity. cbn. destruct Hpc as [-> | ->]; reflexivity.
+  - destruct (tlos_done i f 0 false false) as [i1 o1] eqn:Hd. simplify_eq.
+    eapply (cons_tlos_done (i_st i) 0 false false i i' o 0); eauto; [|lia].
+    intros _. destruct (f_mode f); [reflexivity| |]; exfalso.
+    + destruct Hre' as [_ Hx]. rewrite is_exp_ent, Hent in Hx. discriminate.
+    + destruct Hre' as [_ Hx]. apply (wf_dirty_live _ Hc) in Hx. rewrite is_exp_ent, Hent in Hx. discriminate.
+  - destruct (tlos_done i f v0 true true) as [i1 o1] eqn:Hd. simplify_eq.
+    eapply (cons_tlos_done (i_st i) v0 true true i i' o 0); eauto; [discriminate|lia].
+Qed.
+
+Lemma cons_expunge_load i' o :
+  (f_pc f = Expunge_load1 \/ f_pc f = Expunge_load2) -> amended (i_st i) = false ->
+  match f_e f with
+  | None => Some (Panic NilDeref)
+  | Some e => match ent i e with
+              | PNil => Some (Ok (i, Continue (set_pc f Expunge_cas)))
+              | PExpunged => Some (do r <- expunge_done i f e true; Ok (r.1, Continue r.2))
+              | PVal _ => Some (do r <- expunge_done i f e false; Ok (r.1, Continue r.2))
+              end
+  end = Some (Ok (i', o)) -> cons_post (i_st i) (i_st i') f o.
+Proof.
+  intros Hpc Ham H.
+  assert (P0 : pendf f = 0) by (rewrite los_pendf by reflexivity; destruct Hpc as [-> | ->]; reflexivity).
+  destruct (f_e f) as [e|] eqn:Hfe; [|discriminate].
+  destruct (ent i e) eqn:Hent; simplify_eq.
+  - apply cons_same. cbn. rewrite los_pendf by reflexivity. cbn. congruence.
+  - cbn in H. simplify_eq. apply cons_same. cbn. rewrite los_pendf_dirty_next by reflexivity. congruence.
+  - unfold expunge_done, bind in H. destruct (dirty_insert (i_st i) (f_curk f) e) as [s'|] eqn:Hs'; [|discriminate].
+    cbn in H. simplify_eq. cbn. apply cons_abs_same.
+    + intros k0. unfold dirty_insert in Hs'. destruct (dirty (i_st i)); [|discriminate]. injection Hs' as <-.
+      apply abs_unamended; try reflexivity. exact Ham.
+    + cbn. rewrite los_pendf_dirty_next by reflexivity. congruence.
+Qed.
+
+Lemma cons_LOS i' o :
+  frame_pc_ok f -> step_frame t i f ch = Some (Ok (i', o)) -> cons_post (i_st i) (i_st i') f o.
+Proof.
+  intros Hpk H. pose proof Hok as [He Hst Hdel Hpost]. pose proof Hr as [Hre Hrp]. pose proof Hw as Hw'.
+  unfold frame_pc_ok in Hpk. rewrite Hcall in Hpk.
+  unfold step_frame in H. unfold WFL, in_cs in Hw'. unfold cs_class in Hw'. unfold ref_prom in Hrp. unfold ref_e in Hre.
+  rewrite Hcall in Hre. cbn [key_of] in Hre.
+  assert (PF := los_pendf).
+  destruct (f_pc f) eqn:Hpc; try discriminate Hpk;
+    try (exfalso; apply Hpost in Hpk; rewrite Hcall in Hpk; apply Hpk; reflexivity);
+    rewrite ?Hcall in H; cbn in H, Hw', Hrp, Hre, He.
+  - (* Unexpunge_cas *)
+    destruct (Hw' eq_refl) as [_ [Hwa Hk]]. rewrite Hcall in Hk. cbn in Hk.
+    destruct (f_e f) as [e|] eqn:Hfe; [|discriminate].
+    destruct (ent i e) eqn:Hent; simplify_eq; try (apply cons_same; cbn; rewrite !PF by reflexivity; cbn; rewrite Hpc; reflexivity).
+    destruct (WF_unexpunge (i_st i) k e) as (d & Hd & _); auto.
+    { rewrite is_exp_ent, Hent. reflexivity. }
+    unfold dirty_insert, bind in H. cbn in H. rewrite Hd in H. simplify_eq. cbn.
+    apply cons_abs_same; [|cbn; rewrite !PF by reflexivity; cbn; rewrite Hpc; reflexivity].
+    intros k0. apply abs_unexpunge; auto. rewrite is_exp_ent, Hent. reflexivity.
+  - (* LOS_read1 *)
+    repeat case_match; simplify_eq; apply cons_same; cbn; rewrite !PF by reflexivity; cbn; rewrite Hpc; reflexivity.
+  - (* LOS_lock *)
+    repeat case_match; simplify_eq; apply cons_same; cbn; rewrite !PF by reflexivity; cbn; rewrite Hpc; reflexivity.
+  - (* LOS_read2 *)
+    destruct (Hw' eq_refl) as [_ Hwa]. unfold new_entry, dirty_insert, bind in H. cbn in H.
+    repeat case_match; simplify_eq; try (apply cons_same; cbn; rewrite !PF by reflexivity; cbn; rewrite Hpc; reflexivity).
+    cbn. unfold cons_post. rewrite Hcall. cbn [key_of out_delta]. rewrite !PF by reflexivity. cbn. rewrite Hpc.
+    unfold dirty_lookup in *. case_match; simplify_eq.
+    split.
+    + intros k0 N. rewrite abs_insert_new by auto. rewrite decide_False by exact N. reflexivity.
+    + rewrite (Aof_some _ _ v); [|rewrite abs_insert_new by auto; rewrite decide_True by reflexivity; reflexivity].
+      rewrite Aof_none; [lia|]. unfold abs_lookup, reach, dirty_lookup.
+      repeat match goal with E : _ = _ |- _ => rewrite E end. reflexivity.
+  - (* LOS_amend *)
+    destruct (Hw' eq_refl) as [_ [(L1 & L2 & L3 & d & L4 & L5 & L6) _]]. rewrite Hcall in L3. cbn in L3.
+    unfold new_entry, dirty_insert, bind in H. cbn in H. rewrite L4 in H. simplify_eq. cbn.
+    unfold cons_post. rewrite Hcall. cbn [key_of out_delta]. rewrite !PF by reflexivity. cbn. rewrite Hpc. rewrite L1.
+    assert (Hsub : forall k' e, d !! k' = Some e -> read_m (i_st i) !! k' = Some e) by (intros k' e Hd; apply (L6 k' e Hd)).
+    split.
+    + intros k0 N. rewrite abs_amend by auto. rewrite decide_False by exact N. reflexivity.
+    + rewrite (Aof_some _ _ v); [|rewrite abs_amend by auto; rewrite decide_True by reflexivity; reflexivity].
+      rewrite Aof_none; [lia|]. unfold abs_lookup, reach. rewrite L3, L2. reflexivity.
+  - (* LOS_unlock *)
+    simplify_eq. rewrite los_return_eq by reflexivity. apply cons_same. cbn. rewrite Hcall, PF by reflexivity. rewrite Hpc.
+    destruct (f_los f) as [a []]; reflexivity.
+  - (* Tlos_load1 *)
+    eapply cons_tlos_load; eauto.
+  - (* Tlos_cas *)
+    destruct (f_e f) as [e|] eqn:Hfe; [|discriminate]. specialize (Hre e eq_refl).
+    destruct (ent i e) eqn:Hent; simplify_eq;
+      try (apply cons_same; cbn; rewrite !PF by reflexivity; cbn; rewrite Hpc; reflexivity).
+    destruct (tlos_done _ f v false true) as [i1 o1] eqn:Hd. simplify_eq.
+    assert (Hk : read_m (i_st i) !! k = Some e).
+    { destruct (f_mode f).
+      - apply pod_live; [exact Hre|]. apply is_exp_of_ent. congruence.
+      - apply Hre.
+      - exfalso. destruct Hre as [Hn Hd']. destruct (H2 k e Hd' Hn) as [v' Hv']. unfold ent in Hent. congruence. }
+    eapply (cons_tlos_done (i_st (put_ent i e (PVal v))) v false true _ i' o 1); eauto; try congruence; try discriminate.
+    + intros k0 N. cbn. eapply abs_set_ent_other; eauto. left. exact Hk.
+    + cbn. rewrite (Aof_some _ _ v); [|rewrite abs_set_ent, decide_True by (apply reach_read; exact Hk); reflexivity].
+      rewrite Aof_none; [lia|]. unfold abs_lookup. rewrite (reach_read _ _ _ Hk). unfold e_load. unfold ent in Hent. rewrite Hent. reflexivity.
+  - (* Tlos_load2 *)
+    eapply cons_tlos_load; eauto.
+  - (* Miss_store *)
+    destruct (Hw' eq_refl) as [_ Hwa]. destruct (dirty (i_st i)) as [d|] eqn:Hd; [|congruence]. simplify_eq. cbn.
+    apply cons_abs_same; [intros; apply abs_promote; auto|]. cbn. rewrite !PF by reflexivity. cbn. rewrite Hpc. reflexivity.
+  - (* Dirty_read *)
+    destruct (Hw' eq_refl) as [_ (Hwa & Hd & Hk)]. simplify_eq. cbn.
+    apply cons_abs_same.
+    + intros k0. apply abs_unamended; try reflexivity. destruct (amended (i_st i)) eqn:E; [|reflexivity].
+      exfalso. eapply wf_amended; eauto.
+    + cbn. rewrite los_pendf_dirty_next by reflexivity. rewrite PF by reflexivity. rewrite Hpc. reflexivity.
+  - (* Dirty_iter *)
+    repeat case_match; simplify_eq; apply cons_same; cbn; rewrite !PF by reflexivity; cbn; rewrite Hpc; reflexivity.
+  - (* Expunge_load1 *)
+    eapply cons_expunge_load; eauto. destruct (Hw' eq_refl) as [_ (vis & _ & _ & _ & (_ & L2 & _))]. exact L2.
+  - (* Expunge_cas *)
+    destruct (Hw' eq_refl) as [_ (vis & _ & _ & _ & (_ & L2 & _))].
+    destruct (f_e f) as [e|] eqn:Hfe; [|discriminate].
+    destruct (ent i e) eqn:Hent; simplify_eq;
+      try (apply cons_same; cbn; rewrite !PF by reflexivity; cbn; rewrite Hpc; reflexivity).
+    cbn. apply cons_abs_same.
+    + intros k0. apply abs_expunge; [apply is_exp_of_ent; congruence|]. unfold ent in Hent. intros v0. congruence.
+    + cbn. rewrite los_pendf_dirty_next by reflexivity. rewrite PF by reflexivity. rewrite Hpc. reflexivity.
+  - (* Expunge_load2 *)
+    eapply cons_expunge_load; eauto. destruct (Hw' eq_refl) as [_ (vis & _ & _ & _ & (_ & L2 & _))]. exact L2.
+Qed.
+End LOS.
+
+Lemma sf_cons t i f ch i' o :
+  frag (f_call f) -> frame_ok f -> frame_pc_ok f -> WF_core (i_st i) -> (in_cs f = true -> WFL (i_st i) f) ->
+  WF2 (i_st i) -> ref_inv (i_st i) f -> step_frame t i f ch = Some (Ok (i', o)) ->
+  cons_post (i_st i) (i_st i') f o.
+Proof.
+  intros Hfr Hok Hpk Hc Hw H2 Hr H. destruct (f_call f) eqn:Hcall; try contradiction.
+  - eapply cons_Load; eauto.
+  - cbn in Hfr. subst p. eapply cons_LOS; eauto.
+  - eapply cons_LAD; eauto.
+Qed.
+
+
+(* ---- the history: completed calls with their results ---- *)
+(* pair every response with the open invocation of its thread *)
+Fixpoint completed_from (cur : gmap nat call) (h : list event) : list (call * res) :=
+  match h with
+  | [] => []
+  | EvInv t c :: h' => completed_from (<[t := c]> cur) h'
+  | EvRes t r :: h' =>
+      match cur !! t with
+      | Some c => (c, r) :: completed_from (delete t cur) h'
+      | None => completed_from cur h'
+      end
+  end.
+Definition completed (h : list event) : list (call * res) := completed_from ∅ h.
+
+(* LoadOrStore(j, k, _) that stored (loaded = false) / LoadAndDelete(j, k) that deleted (loaded = true) *)
+Definition is_stored (j : nat) (k : Z) (cr : call * res) : bool :=
+  match cr with
+  | (CLoadOrStore j' k' _ _, RLos _ false) => Nat.eqb j' j && Z.eqb k' k
+  | _ => false
+  end.
+Definition is_deleted (j : nat) (k : Z) (cr : call * res) : bool :=
+  match cr with
+  | (CLoadAndDelete j' k', ROpt (Some _)) => Nat.eqb j' j && Z.eqb k' k
+  | _ => false
+  end.
+Definition count {X} (p : X -> bool) (l : list X) : Z := Z.of_nat (length (List.filter p l)).
+Definition stored (j : nat) (k : Z) (h : list event) : Z := count (is_stored j k) (completed h).
+Definition deleted (j : nat) (k : Z) (h : list event) : Z := count (is_deleted j k) (completed h).
+
+(* the same as a left fold, which is how the history grows *)
+Definition on_key (j : nat) (k : Z) (c : call) : bool := Nat.eqb (call_inst c) j && Z.eqb (key_of c) k.
+Definition hdelta (j : nat) (k : Z) (oc : option call) (r : res) : Z :=
+  match oc with Some c => if on_key j k c then dH c r else 0 | None => 0 end.
+Definition hstep (j : nat) (k : Z) (st : gmap nat call * Z) (ev : event) : gmap nat call * Z :=
+  match ev with
+  | EvInv t c => (<[t := c]> st.1, st.2)
+  | EvRes t r => (delete t st.1, st.2 + hdelta j k (st.1 !! t) r)
+  end.
+Definition hist_state (j : nat) (k : Z) (h : list event) : gmap nat call * Z := fold_left (hstep j k) h (∅, 0).
+
+Lemma count_cons {X} (p : X -> bool) x l : count p (x :: l) = (if p x then 1 else 0) + count p l.
+Proof. unfold count. cbn. destruct (p x); cbn [length]; lia. Qed.
+
+Lemma hdelta_count j k c r :
+  hdelta j k (Some c) r = (if is_stored j k (c, r) then 1 else 0) - (if is_deleted j k (c, r) then 1 else 0).
+Proof.
+  unfold hdelta, on_key, is_stored, is_deleted, dH.
+  destruct c; cbn; try (destruct (_ && _); reflexivity).
+  - destruct r; try (destruct (_ && _); reflexivity). destruct loaded; destruct (_ && _); reflexivity.
+  - destruct r; try (destruct (_ && _); reflexivity). destruct o; destruct (_ && _); reflexivity.
+Qed.
+
+Lemma fold_hstep_completed j k h cur acc :
+  (fold_left (hstep j k) h (cur, acc)).2 =
+  acc + count (is_stored j k) (completed_from cur h) - count (is_deleted j k) (completed_from cur h).
+Proof.
+  revert cur acc. induction h as [|ev h IH]; intros cur acc; cbn.
+  - unfold count. cbn. lia.
+  - destruct ev as [t c|t r]; cbn.
+    + apply IH.
+    + rewrite IH. destruct (cur !! t) as [c|] eqn:E.
+      * rewrite !count_cons, hdelta_count. lia.
+      * cbn.
+        assert (X : completed_from (delete t cur) h = completed_from cur h).
+        { f_equal. apply delete_notin. exact E. }
+        rewrite X. lia.
+Qed.
+
+Lemma balance_counts j k h : (hist_state j k h).2 = stored j k h - deleted j k h.
+Proof. unfold hist_state, stored, deleted, completed. rewrite fold_hstep_completed. lia. Qed.
+
+(* ---- calls in flight ---- *)
+Definition pend (j : nat) (k : Z) (of : option frame) : Z :=
+  match of with Some f => if on_key j k (f_call f) then pendf f else 0 | None => 0 end.
+Definition sumZ (l : list Z) : Z := fold_right Z.add 0 l.
+Definition pending (j : nat) (k : Z) (c : config) : Z :=
+  sumZ (map (fun th => pend j k (head (t_stack th))) (c_threads c)).
+
+Lemma sumZ_set {X} (g : X -> Z) t x old l :
+  nth_error l t = Some old -> sumZ (map g (set_nth_list t x l)) = sumZ (map g l) - g old + g x.
+Proof.
+  unfold set_nth_list. revert t. induction l as [|y l IH]; intros [|t] H; cbn in *; try discriminate.
+  - injection H as ->. rewrite drop_0. lia.
+  - fold (sumZ (map g (take t l ++ x :: drop (S t) l))). rewrite (IH t H). unfold sumZ. lia.
+Qed.
+
+Definition thread_frag (th : thread) : Prop :=
+  Forall frag (t_prog th) /\ Forall (fun f => frag (f_call f)) (t_stack th) /\ (length (t_stack th) <= 1)%nat.
+
+Record Inv3 (j : nat) (k : Z) (c : config) : Prop := {
+  i3_frag : forall t th, nth_error (c_threads c) t = Some th -> thread_frag th;
+  i3_cur : forall t th, nth_error (c_threads c) t = Some th ->
+           (hist_state j k (c_hist c)).1 !! t = if t_fresh th then None else f_call <$> head (t_stack th);
+  i3_bal : forall i, nth_error (c_insts c) j = Some i ->
+           (hist_state j k (c_hist c)).2 + pending j k c = Aof (i_st i) k
+}.
+
+(* one step of a thread of the fragment *)
+Lemma step_frag c t ch c' th f :
+  step c t ch = Some c' -> nth_error (c_threads c) t = Some th -> t_stack th = [f] -> frag (f_call f) ->
+  is_post_label (f_pc f) = false ->
+  let inv := if t_fresh th then [EvInv t (f_call f)] else [] in
+  exists i r, nth_error (c_insts c) (call_inst (f_call f)) = Some i /\ step_frame t i f ch = Some r /\
+    match r with
+    | Panic _ => c_panicked c' = true
+    | Ok (i', Continue f') =>
+        c' = Config (set_nth_list (call_inst (f_call f)) i' (c_insts c)) (c_um c)
+                    (set_nth_list t (Thread (t_prog th) [f'] (t_results th) false) (c_threads c))
+                    (c_hist c ++ inv) false
+    | Ok (i', Return r) =>
+        c' = Config (set_nth_list (call_inst (f_call f)) i' (c_insts c)) (c_um c)
+                    (set_nth_list t (next_call (Thread (t_prog th) [] (t_results th ++ [r]) false)) (c_threads c))
+                    (c_hist c ++ inv ++ [EvRes t r]) false
+    | Ok (_, Callback _ _ _) => False
+    end.
+Proof.
+  intros H Hth Hst Hfr Hpl inv. rewrite step_unfold in H.
+  destruct (c_panicked c); [discriminate|]. rewrite Hth, Hst, Hpl in H.
+  destruct (nth_error (c_insts c) (call_inst (f_call f))) as [i|] eqn:Hi; [|discriminate].
+  destruct (step_frame t i f ch) as [r|] eqn:Hsf; [|discriminate].
+  exists i, r. split; [reflexivity|]. split; [exact Hsf|].
+  destruct r as [[i' [f'|r|f' k v]]|k]; unfold fin in H.
+  - simplify_eq. reflexivity.
+  - cbn in H. destruct (f_call f); try contradiction; simplify_eq; reflexivity.
+  - apply sf_callback in Hsf as (_ & _ & (j & cb & Hc) & _). rewrite Hc in Hfr. exact Hfr.
+  - simplify_eq. reflexivity.
+Qed.
+
+Lemma pendf_new c : pendf (new_frame c) = 0.
+Proof. destruct c; reflexivity. Qed.
+
+Lemma pend_new j k c : pend j k (Some (new_frame c)) = 0.
+Proof. unfold pend. rewrite pendf_new. destruct (on_key _ _ _); reflexivity. Qed.
+
+Lemma hist_state_app j k h evs : hist_state j k (h ++ evs) = fold_left (hstep j k) evs (hist_state j k h).
+Proof. unfold hist_state. apply fold_left_app. Qed.
+
+Lemma frag_nopost c : frag c -> nopost c.
+Proof. destruct c; cbn; auto. Qed.
+
+Lemma Inv3_nopost j k c : Inv3 j k c -> calls_nopost c.
+Proof.
+  intros [Ifr _ _] t th Hth. destruct (Ifr t th Hth) as (H1 & H2 & _). split.
+  - eapply List.Forall_impl; [|exact H1]. apply frag_nopost.
+  - eapply List.Forall_impl; [|exact H2]. intros f. apply frag_nopost.
+Qed.
+
+(* the history after the invocation event of a step, if any *)
+Lemma hist_inv j k (st : gmap nat call * Z) t c (fresh : bool) :
+  (fresh = false -> st.1 !! t = Some c) ->
+  let st' := fold_left (hstep j k) (if fresh then [EvInv t c] else []) st in
+  st'.2 = st.2 /\ st'.1 !! t = Some c /\ forall t', t' <> t -> st'.1 !! t' = st.1 !! t'.
+Proof.
+  intros H. destruct fresh; cbn.
+  - split; [reflexivity|]. split; [apply lookup_insert|]. intros t' N. apply lookup_insert_ne. congruence.
+  - split; [reflexivity|]. split; [auto|]. reflexivity.
+Qed.
+
+Lemma on_key_spec j k c : on_key j k c = true <-> call_inst c = j /\ key_of c = k.
+Proof.
+  unfold on_key. rewrite andb_true_iff, Nat.eqb_eq, Z.eqb_eq. reflexivity.
+Qed.
+
+Theorem Inv3_step j k c t ch c' :
+  Inv c -> Inv2 c -> Inv3 j k c -> step c t ch = Some c' -> Inv3 j k c'.
+Proof.
+  intros HI HI2 HI3 H. pose proof HI3 as [Ifr Icur Ibal].
+  destruct (step_nopost c t ch c' HI (Inv3_nopost j k c HI3) H) as [_ Hnp].
+  pose proof H as Hstep. apply step_cases in Hstep as (th & f & rest & th0 & Hth & Hst & _ & _).
+  destruct (Ifr t th Hth) as (Hfp & Hfs & Hlen). rewrite Hst in Hfs, Hlen.
+  destruct rest as [|? ?]; [|cbn in Hlen; lia]. inversion Hfs as [|? ? Hfr _]; subst.
+  assert (Tt : top_frame c t = Some f) by (unfold top_frame; rewrite Hth, Hst; reflexivity).
+  assert (Hok : frame_ok f) by (eapply inv_frames; eauto).
+  assert (Hpl : is_post_label (f_pc f) = false).
+  { destruct (is_post_label (f_pc f)) eqn:E; [|reflexivity]. exfalso. apply (fo_post _ Hok) in E.
+    destruct (f_call f); cbn in *; try contradiction. }
+  destruct (step_frag c t ch c' th f H Hth Hst Hfr Hpl) as (i & r & Hi & Hsf & Hr).
+  destruct r as [[i' o]|kk]; [|rewrite Hr in Hnp; discriminate].
+  set (j0 := call_inst (f_call f)) in *.
+  assert (Hl : (j0 < length (c_insts c))%nat) by (eapply nth_error_lt; eauto).
+  assert (Hlt : (t < length (c_threads c))%nat) by (eapply nth_error_lt; eauto).
+  assert (Hcons : cons_post (i_st i) (i_st i') f o).
+  { eapply sf_cons; eauto.
+    - eapply i2_pc; eauto.
+    - eapply Inv_WF_core; eauto.
+    - intros Hcs. destruct (inv_insts c HI _ _ Hi) as [Hm Hw].
+      assert (Hmu : i_mu i = Some t) by (apply Hm; exists f; auto). rewrite Hmu in Hw. apply Hw, Tt.
+    - eapply i2_wf2; eauto.
+    - eapply i2_ref; eauto. }
+  pose proof (sf_frame_ok _ _ _ _ _ _ Hok Hsf) as Hfo.
+  (* the state of instance j after the step *)
+  assert (HA : forall i2, nth_error (set_nth_list j0 i' (c_insts c)) j = Some i2 ->
+            exists i1, nth_error (c_insts c) j = Some i1 /\
+              Aof (i_st i2) k - Aof (i_st i1) k = (if on_key j k (f_call f) then out_delta f o - pendf f else 0)).
+  { intros i2 Hi2. destruct (decide (j = j0)) as [->|Nj].
+    - rewrite nth_error_set_nth_list_eq in Hi2 by exact Hl. injection Hi2 as <-. exists i. split; [exact Hi|].
+      destruct Hcons as [Hother Hkey]. destruct (on_key j0 k (f_call f)) eqn:E.
+      + apply on_key_spec in E as [_ <-]. exact Hkey.
+      + assert (N : k <> key_of (f_call f)).
+        { intros ->. assert (on_key j0 (key_of (f_call f)) (f_call f) = true) by (apply on_key_spec; auto). congruence. }
+        unfold Aof. rewrite (Hother k N). lia.
+    - rewrite nth_error_set_nth_list_ne in Hi2 by auto. exists i2. split; [exact Hi2|].
+      destruct (on_key j k (f_call f)) eqn:E; [|lia]. apply on_key_spec in E as [E _]. exfalso. apply Nj. symmetry. exact E. }
+  assert (Hcur0 : t_fresh th = false -> (hist_state j k (c_hist c)).1 !! t = Some (f_call f)).
+  { intros E. rewrite (Icur t th Hth), E, Hst. reflexivity. }
+  destruct (hist_inv j k (hist_state j k (c_hist c)) t (f_call f) (t_fresh th) Hcur0) as (Hb & Hct & Hco).
+  destruct o as [f'|r|f' k0 v0]; [| |contradiction].
+  - (* the call goes on *)
+    destruct Hfo as [_ Hcall]. subst c'. constructor; cbn [c_insts c_um c_threads c_hist c_panicked].
+    + intros t' th'. destruct (decide (t' = t)) as [->|N].
+      * rewrite nth_error_set_nth_list_eq by exact Hlt. intros [= <-]. split; [exact Hfp|]. cbn. split; [|lia].
+        constructor; [rewrite Hcall; exact Hfr|constructor].
+      * rewrite nth_error_set_nth_list_ne by auto. apply Ifr.
+    + intros t' th'. rewrite hist_state_app. destruct (decide (t' = t)) as [->|N].
+      * rewrite nth_error_set_nth_list_eq by exact Hlt. intros [= <-]. cbn. rewrite Hcall. exact Hct.
+      * rewrite nth_error_set_nth_list_ne by auto. intros Hth'. rewrite (Hco t' N). apply Icur, Hth'.
+    + intros i2 Hi2. destruct (HA i2 Hi2) as (i1 & Hi1 & HAof). specialize (Ibal i1 Hi1).
+      rewrite hist_state_app, Hb. unfold pending in *. cbn.
+      rewrite (sumZ_set _ t _ th) by exact Hth. rewrite Hst. cbn [head t_stack pend].
+      rewrite Hcall. cbn [out_delta] in HAof. destruct (on_key j k (f_call f)); lia.
+  - (* the call returns *)
+    subst c'. constructor; cbn [c_insts c_um c_threads c_hist c_panicked].
+    + intros t' th'. destruct (decide (t' = t)) as [->|N].
+      * rewrite nth_error_set_nth_list_eq by exact Hlt. intros [= <-]. unfold next_call. cbn.
+        destruct (t_prog th) as [|c0 p0] eqn:Ep; cbn.
+        -- split; [constructor|]. split; [constructor|cbn; lia].
+        -- inversion Hfp; subst. split; [assumption|]. split; [constructor; [assumption|constructor]|cbn; lia].
+      * rewrite nth_error_set_nth_list_ne by auto. apply Ifr.
+    + intros t' th'. rewrite app_assoc, !hist_state_app. cbn [fold_left hstep]. cbn [fst snd].
+      destruct (decide (t' = t)) as [->|N].
+      * rewrite nth_error_set_nth_list_eq by exact Hlt. intros [= <-]. rewrite lookup_delete. unfold next_call. cbn.
+        destruct (t_prog th); reflexivity.
+      * rewrite nth_error_set_nth_list_ne by auto. intros Hth'. rewrite lookup_delete_ne by congruence.
+        rewrite (Hco t' N). apply Icur, Hth'.
+    + intros i2 Hi2. destruct (HA i2 Hi2) as (i1 & Hi1 & HAof). specialize (Ibal i1 Hi1).
+      rewrite app_assoc, !hist_state_app. cbn [fold_left hstep]. cbn [fst snd]. rewrite Hb, Hct.
+      unfold pending in *. cbn.
+      rewrite (sumZ_set _ t _ th) by exact Hth. rewrite Hst. cbn [head t_stack pend].
+      assert (Hnew : pend j k (head (t_stack (next_call (Thread (t_prog th) [] (t_results th ++ [r]) false)))) = 0).
+      { unfold next_call. cbn [t_prog]. destruct (t_prog th) as [|c1 p1]; cbn [t_stack head]; [reflexivity|]. apply pend_new. }
+      rewrite Hnew. unfold hdelta. cbn [out_delta] in HAof. destruct (on_key j k (f_call f)); lia.
+Qed.
+
+Lemma sumZ_zero {X} (g : X -> Z) l : (forall x, In x l -> g x = 0) -> sumZ (map g l) = 0.
+Proof.
+  induction l as [|x l IH]; intros H; [reflexivity|]. cbn [map sumZ fold_right]. rewrite (H x) by (left; reflexivity).
+  fold (sumZ (map g l)). rewrite IH; [reflexivity|]. intros y Hy. apply H. right. exact Hy.
+Qed.
+
+Theorem Inv3_init j k n progs : Forall (Forall frag) progs -> Inv3 j k (init_config n progs).
+Proof.
+  intros Hfr. constructor.
+  - intros t th. cbn. rewrite nth_error_map. destruct (nth_error progs t) as [p|] eqn:E; [|discriminate]. cbn.
+    intros [= <-]. assert (Hp : Forall frag p). { rewrite Forall_forall in Hfr. apply Hfr. eapply nth_error_In, E. }
+    unfold next_call. cbn. destruct p as [|c0 p]; cbn.
+    + split; [constructor|]. split; [constructor|cbn; lia].
+    + inversion Hp; subst. split; [assumption|]. split; [constructor; [assumption|constructor]|cbn; lia].
+  - intros t th. cbn. rewrite nth_error_map. destruct (nth_error progs t) as [p|]; [|discriminate]. cbn.
+    intros [= <-]. unfold next_call. cbn. destruct p; reflexivity.
+  - intros i Hi. cbn in Hi. apply nth_error_In, repeat_spec in Hi. subst i. cbn.
+    unfold pending. cbn. rewrite sumZ_zero; [reflexivity|].
+    intros th Hin. apply in_map_iff in Hin as (p & <- & _). unfold next_call. cbn.
+    destruct p; cbn; [reflexivity|apply pend_new].
+Qed.
+
+Lemma Inv123_run j k c sched : Inv c -> Inv2 c -> Inv3 j k c ->
+  Inv (run_schedule c sched) /\ Inv2 (run_schedule c sched) /\ Inv3 j k (run_schedule c sched).
+Proof.
+  revert c. induction sched as [|[t ch] sched IH]; intros c H1 H2 H3; cbn; [auto|].
+  destruct (step c t ch) as [c'|] eqn:E; cbn; [|apply IH; assumption].
+  apply IH; [eapply Inv_step; eauto|eapply Inv2_step; eauto|eapply Inv3_step; eauto].
+Qed.
+
+(* Per-key conservation. In every reachable configuration of programs made of
+   Load / LoadOrStore / LoadAndDelete, for every instance j and key k:
+   (#LoadOrStore(j,k) results with loaded = false) - (#LoadAndDelete(j,k) results
+   with loaded = true) + (effects of calls in flight not yet reported) = [k present]. *)
+Theorem conservation n progs sched j k i :
+  Forall (Forall frag) progs ->
+  let c := run_schedule (init_config n progs) sched in
+  nth_error (c_insts c) j = Some i ->
+  stored j k (c_hist c) - deleted j k (c_hist c) + pending j k c = Aof (i_st i) k.
+Proof.
+  intros Hfr c Hi.
+  destruct (Inv123_run j k (init_config n progs) sched (Inv_init n progs) (Inv2_init n progs) (Inv3_init j k n progs Hfr))
+    as (_ & _ & [_ _ Hbal]).
+  rewrite <- balance_counts. apply Hbal. exact Hi.
+Qed.
+
+Lemma pending_finished j k c : finished c = true -> pending j k c = 0.
+Proof.
+  unfold finished, pending. intros H. apply sumZ_zero. intros th Hin.
+  rewrite forallb_forall in H. specialize (H th Hin). destruct (t_stack th); [reflexivity|discriminate].
+Qed.
+
+(* when every goroutine has finished: stored - deleted = 1 if k is in the map, else 0 *)
+Theorem conservation_quiescent n progs sched j k i :
+  Forall (Forall frag) progs ->
+  let c := run_schedule (init_config n progs) sched in
+  nth_error (c_insts c) j = Some i -> finished c = true ->
+  stored j k (c_hist c) - deleted j k (c_hist c) = Aof (i_st i) k.
+Proof.
+  intros Hfr c Hi Hfin. pose proof (conservation n progs sched j k i Hfr Hi) as H. cbv zeta in H.
+  fold c in H. rewrite (pending_finished j k c Hfin) in H. lia.
+Qed.
